@@ -318,4 +318,4 @@ def _obligations():
 
 
 def obligations():
-    return _obligations() + [effects_obligation("C09")]
+    return _obligations() + [labels_obligation("C09"), effects_obligation("C09")]
